@@ -58,7 +58,7 @@ pub fn install_panic_recorder() {
 		} else {
 			"panic".to_string()
 		};
-		if name.starts_with("peer_") || name == "netsim-helper" {
+		if name.starts_with("peer_") || name == "netsim-helper" || name == "sync" {
 			PANICS.lock().unwrap().push(format!("thread {} panicked at {}: {}", name, loc, msg));
 		} else {
 			prev(info);
